@@ -111,9 +111,7 @@ func (p *Prog) asyncUsed(fn *ssa.Function) bool {
 						continue
 					}
 					if ci, ok := in.(ssa.CallInstruction); ok && ci.Common().Value == *op {
-						if _, isCall := in.(*ssa.Call); isCall {
-							continue
-						}
+						continue // callee position of a call / go / defer: not a value use
 					}
 					if _, isMC := in.(*ssa.MakeClosure); isMC {
 						continue
@@ -431,15 +429,32 @@ func newIPSearch(target, avoid ipred) *ipSearch {
 // (following callees); if some path inside that function reaches b without A,
 // every synchronous caller must establish A before the call.
 func mustPrecedeIP(b ssa.Instruction, A ipred, depth int) bool {
+	return mustPrecedeIPF(b, A, nil, depth)
+}
+
+// mustPrecedeIPF: mustPrecedeIP restricted to paths allowed by the edge filter.
+func mustPrecedeIPF(b ssa.Instruction, A ipred, edgeOK func(*ssa.BasicBlock, int) bool, depth int) bool {
 	p := theProg
 	fn := b.Parent()
 	s := newIPSearch(func(in ssa.Instruction) bool { return in == b }, A)
+	s.edgeOK = edgeOK
 	if len(fn.Blocks) == 0 {
 		return false
 	}
 	s.seen[fmt.Sprintf("%p|", fn.Blocks[0])] = true
 	if !s.scan(fn.Blocks[0], 0, nil) {
 		return true
+	}
+	if depth < ipMaxDepth && (p.roots == nil || !p.roots[fn]) {
+		// a goroutine body starts after its go statement: what precedes the spawn precedes the body
+		if gs := p.goSites(fn); len(gs) > 0 && len(p.syncCallers(fn)) == 0 && !p.asyncValueUsed(fn) {
+			for _, g := range gs {
+				if !mustPrecedeIPF(g, A, edgeOK, depth+1) {
+					return false
+				}
+			}
+			return true
+		}
 	}
 	if depth >= ipMaxDepth || p.activityRoot(fn) {
 		return false
@@ -449,11 +464,43 @@ func mustPrecedeIP(b ssa.Instruction, A ipred, depth int) bool {
 		return false
 	}
 	for _, cs := range callers {
-		if !mustPrecedeIP(cs, A, depth+1) {
+		if !mustPrecedeIPF(cs, A, edgeOK, depth+1) {
 			return false
 		}
 	}
 	return true
+}
+
+// goSites: the go statements that start fn, if fn is only ever started that way.
+func (p *Prog) goSites(fn *ssa.Function) []*ssa.Go {
+	var out []*ssa.Go
+	for _, ci := range p.callers[fn] {
+		g, ok := ci.(*ssa.Go)
+		if !ok {
+			return nil
+		}
+		out = append(out, g)
+	}
+	for _, mc := range p.closure[fn] {
+		for _, ref := range *mc.Referrers() {
+			switch x := ref.(type) {
+			case *ssa.Go:
+				dup := false
+				for _, o := range out {
+					if o == x {
+						dup = true
+					}
+				}
+				if !dup {
+					out = append(out, x)
+				}
+			case *ssa.DebugRef:
+			default:
+				return nil
+			}
+		}
+	}
+	return out
 }
 
 // impliedCondsIP: branch conditions certainly true when b is reached, including
